@@ -35,7 +35,8 @@ using server_t = bluetoe::server<
             bluetoe::bind_characteristic_value< std::uint8_t, &char_value >, bluetoe::no_write_access >,
         bluetoe::requires_encryption > >;
 
-// scripted key source: every EDIV/Rand is known (C28 explores the key handling; here it only opens the state "encrypted")
+// scripted key source: every EDIV/Rand but EDIV 0xDEAD is known (C28 explores the key handling; here it opens the state
+// "encrypted" and provides a request that has to be rejected)
 struct scripted_sm
 {
     template < typename ... >
@@ -46,8 +47,9 @@ struct scripted_sm
         class channel_data_t : public Other
         {
         public:
-            std::pair< bool, bluetoe::details::uint128_t > find_key( std::uint16_t, std::uint64_t ) const
+            std::pair< bool, bluetoe::details::uint128_t > find_key( std::uint16_t ediv, std::uint64_t ) const
             {
+                if ( ediv == 0xDEAD ) return { false, bluetoe::details::uint128_t{} };
                 bluetoe::details::uint128_t k; for ( int i = 0; i != 16; ++i ) k[ i ] = std::uint8_t( 0x30 + i );
                 return { true, k };
             }
@@ -697,6 +699,65 @@ std::vector< cpr > cpr_family()
     return v;
 }
 
+// the form of a reject follows the negotiated features: LL_REJECT_EXT_IND only if both sides support "Extended Reject
+// Indication" (Core Vol 6 Part B 5.1.x "... shall use LL_REJECT_EXT_IND if supported by both devices, LL_REJECT_IND otherwise").
+// Prepared states: no feature exchange, and feature exchanges with central feature sets all / without extended reject /
+// without connection parameters request / all zero.  Rejected requests: LL_ENC_REQ for an unknown key (enc variant) - judged;
+// invalid LL_CONNECTION_PARAM_REQ - observed only (see report).
+void reject_forms( mc::Report& rep, const std::string* only, bool verbose, std::string* reproduced )
+{
+    struct fs { const char* name; int exchange; std::uint8_t set; };
+    static const fs sets[] = { { "no-feature-exchange", 0, 0xff }, { "central-supports-all", 1, 0xff }, { "central-lacks-extended-reject", 1, 0xfb },
+                               { "central-lacks-conn-param-request", 1, 0xfd }, { "central-supports-nothing", 1, 0x00 } };
+    for ( const fs& f : sets )
+    {
+        for ( int what = 0; what != 2; ++what )     // 0 invalid LL_CONNECTION_PARAM_REQ, 1 LL_ENC_REQ for an unknown key
+        {
+            if ( what == 1 && !C27_ENC ) continue;
+            const std::string step = mc::fmt( "rejectform %s %d", f.name, what );
+            if ( only && *only != step ) continue;
+            std::string err;
+            if ( !prepare( S_FRESH, default_params, err ) ) return;
+            std::uint16_t common = supported_features;
+            if ( f.exchange )
+            {
+                ctrl( { FEATURE_REQ, f.set, 0xff, 0, 0, 0, 0, 0, 0 } );
+                ll->sim_empty_event();
+                const answer a = collect();
+                common = std::uint16_t( supported_features & ( f.set | 0xff00 ) );
+                if ( !( a.n_ctrl == 1 && a.len == 9 && a.pdu[ 0 ] == FEATURE_RSP && a.pdu[ 1 ] == std::uint8_t( common ) ) )
+                { rep.fail( "feature-rsp:not-intersection:common-feature-missing", std::string( f.name ) + ": " + show( a ), { step } ); continue; }
+            }
+            const bool ext = ( common & F_EXT_REJECT ) != 0;
+            std::uint8_t req[ 32 ];
+            unsigned len;
+            if ( what == 0 ) len = build_cpr( cpr{ 0x28, 0x18, 0, 0x48, 0 }, req );
+            else { build_pdu( ENC_REQ, 23, 0, req ); req[ 9 ] = 0xAD; req[ 10 ] = 0xDE; len = 23; }
+            ll->sim_ll_control( req, len );
+            ll->sim_empty_event();
+            // last control PDU of the answer event
+            const llw::pdu* last = nullptr;
+            for ( unsigned i = 0; i < ll->log.tx_count && i < LLW_MAX_TX_LOG; ++i ) if ( ll->log.tx[ i ].n > 2 && ( ll->log.tx[ i ].d[ 0 ] & 3 ) == 3 ) last = &ll->log.tx[ i ];
+            ++rep.evaluations; ++rep.traces_validated;
+            const std::uint8_t req_op = what == 0 ? CONNECTION_PARAM_REQ : ENC_REQ;
+            const bool is_ext = last && last->n == 5 && last->d[ 2 ] == REJECT_EXT_IND && last->d[ 3 ] == req_op;
+            const bool is_old = last && last->n == 4 && last->d[ 2 ] == REJECT_IND;
+            const std::string got = last ? mc::hex( last->d + 2, last->n - 2u ) : std::string( "-" );
+            if ( verbose ) printf( "  %s, %s -> %s (extended reject indication %s by both)\n", f.name, what ? "LL_ENC_REQ(unknown key)" : "invalid LL_CONNECTION_PARAM_REQ", got.c_str(), ext ? "supported" : "not supported" );
+            if ( !is_ext && !is_old ) { rep.fail( "reject-form:request-not-rejected", std::string( f.name ) + ": " + got, { step } ); if ( reproduced ) *reproduced = "reject-form:request-not-rejected"; continue; }
+            if ( what == 1 && is_ext != ext )
+            {
+                const std::string sig = ext ? "reject-form:reject-ind-although-extended-reject-negotiated" : "reject-form:reject-ext-ind-without-negotiated-feature";
+                rep.fail( sig, mc::fmt( "%s: LL_ENC_REQ for an unknown key answered %s; extended reject indication is %s by both sides", f.name, got.c_str(), ext ? "supported" : "not supported" ), { step } );
+                if ( reproduced ) *reproduced = sig;
+                continue;
+            }
+            rep.cls( mc::fmt( "reject form: %s, %s -> %s%s", f.name, what ? "enc-req(unknown key)" : "invalid conn-param-req", is_ext ? "LL_REJECT_EXT_IND" : "LL_REJECT_IND",
+                              what == 0 && is_ext != ext ? " (not judged, differs from the negotiated features)" : "" ) );
+        }
+    }
+}
+
 void part_d( const mc::Args&, mc::Report& rep )
 {
     const std::vector< cpr > family = cpr_family();
@@ -735,6 +796,7 @@ void part_d( const mc::Args&, mc::Report& rep )
         ++rep.counters[ "boundary families (states)" ];
     }
     rep.counters[ "boundary requests per state" ] = family.size();
+    reject_forms( rep, nullptr, false, nullptr );
 }
 
 // ---------------------------------------------------------------------------------------------------------------------
@@ -1011,6 +1073,14 @@ int replay( const mc::Args& a, mc::Report& rep )
         const cpr_verdict v = judge_cpr( im, cpr{ std::uint16_t( imin ), std::uint16_t( imax ), std::uint16_t( lat ), std::uint16_t( to ), ex }, baseline, st, true );
         printf( "%s %s\n", v.sig.empty() ? "ok" : v.sig.c_str(), v.detail.c_str() );
         if ( v.sig == rf.sig ) { printf( "REPRODUCED %s\n", rf.sig.c_str() ); return 1; }
+        printf( "not reproduced\n" ); return 0;
+    }
+    if ( first.rfind( "rejectform ", 0 ) == 0 )
+    {
+        std::string got;
+        mc::Report scratch;
+        reject_forms( scratch, &first, true, &got );
+        if ( got == rf.sig ) { printf( "REPRODUCED %s\n", rf.sig.c_str() ); return 1; }
         printf( "not reproduced\n" ); return 0;
     }
     if ( first.rfind( "phy ", 0 ) == 0 )
